@@ -13,7 +13,7 @@ HERE = os.path.dirname(os.path.abspath(__file__))
 VERIF = os.path.dirname(HERE)
 sys.path.insert(0, os.path.join(VERIF, 'engine', 'py'))
 from ddoverif import props
-ALL = sorted(props.PROPS)
+ALL = os.environ.get('PAR_PROPS', '').split() or sorted(props.PROPS)
 K = int(os.environ.get('PAR_K', '8'))
 slots = queue.Queue()
 for k in range(K):
